@@ -33,12 +33,12 @@ CHECKS = {
          "DESIGN.md section 5 (C02)"),
  "C03": ("exploration",
          "exhaustive enumeration of (definition, candidate) pairs against an independent three-valued matcher",
-         "Every definition of SCPI shape over {A,B}/{a,b} with suffixes {none,1,2,12,01,0} x every candidate string up to length 5/6 over {a,A,b,B,1,2,0,_}, plus 62 real SCPI mnemonics (incl. 12-character ones) x their edit/case/suffix neighbourhood, through mnemonic_match, Token::match_program_header and mnemonic_compare. Complete in the stated space; the matcher scans bytes uniformly so two letters per case class are representative. Definitions with 9-12 digit suffixes and candidates whose suffix wraps modulo 2^8/2^16/2^32/2^64 or differs only in leading/trailing digits are included as a directed family.",
+         "Every definition of SCPI shape over {A,B}/{a,b} with suffixes {none,1,2,12,01,0} x every candidate string up to length 5/6 over {a,A,b,B,1,2,0,_}, plus 62 real SCPI mnemonics (incl. 12-character ones) x their edit/case/suffix neighbourhood, through mnemonic_match, Token::match_program_header and mnemonic_compare; every real mnemonic is also installed as the single node of a command tree and each candidate of its neighbourhood sent as a program header (2 M runs; the handler runs iff the reference matches). Complete in the stated space; the matcher scans bytes uniformly so two letters per case class are representative. Definitions with 9-12 digit suffixes and candidates whose suffix wraps modulo 2^8/2^16/2^32/2^64 or differs only in leading/trailing digits are included as a directed family.",
          "Trusted: the 40-line reference matcher (self-checked on the repo's own test expectations). Suffixes with leading zeros are not judged (property does not pin them).",
          "DESIGN.md section 5 (C03)"),
  "C14": ("exploration",
          "exhaustive enumeration of all 65536 error numbers against an independent class table, plus a table of library-raised faults",
-         "Every i16 value through Error::custom / ErrorCode::Custom and, where defined, the standard variant (code round trip, esr_mask, message); ~70 faulty messages (syntax, header, arity, type -> command error; value -> execution error) run on the documented device checking error class and the ESR bit set; non-numeric elements (string, block, expression, non-decimal, character data incl. the special-value mnemonics) offered to 12 quantity / Amplitude / Db types must raise a command error; response-buffer exhaustion must raise an execution error; every number of an independently written list of the SCPI-99 21.8 standard error numbers must be known to the lookup and report itself.",
+         "Every i16 value through Error::custom / ErrorCode::Custom and, where defined, the standard variant (code round trip, esr_mask, message); ~70 faulty messages (syntax, header, arity, type -> command error; value -> execution error) run on the documented device checking error class and the ESR bit set; non-numeric elements (string, block, expression, non-decimal, character data incl. the special-value mnemonics) offered to 12 quantity / Amplitude / Db types must raise a command error; every parameter fault of a 14-entry table as first, second and third parameter (same class wherever it stands); response-buffer exhaustion at every capacity of 7 messages must raise an execution error; every number of an independently written list of the SCPI-99 21.8 standard error numbers must be known to the lookup and report itself.",
          "Trusted: the class table in scpimodel::esr_bit_of (15 lines from IEEE 488.2 11.5.1 / SCPI-99 21.8.2); the fault table's classification of each message.",
          "DESIGN.md section 5 (C14)"),
  "C05": ("fault_enumeration",
@@ -73,12 +73,12 @@ CHECKS = {
          "DESIGN.md section 5 (C01)"),
  "C07": ("exploration",
          "exhaustive structured literal families (sign x integer part x fraction x exponent, all short literals over a numeric alphabet, non-decimal literals, keywords, other types) x 10 integer targets + bool, against an exact big-integer decimal oracle",
-         "About 18k-36k grammar literals (every type bound -1/+0/+1/+2, same-digit-count overflows, every half-integer spelling, exponents from E-400 to E400) and every NRf literal up to length 7/9 over `+-0159.E` and up to length 5/7 over `-.E0123456789`, each converted to all ten integer types and bool through TryFrom<Token> and through Parameters::next_data in a real message; non-decimal literals of every bound incl. 64-bit overflow patterns; MIN/MAX keywords; every other element type must give a command error. Ok(r) is accepted iff |r - x| <= 1/2 + one ulp of the intermediate float type at the exact value x (exactly x for NR1 spellings); -222 iff some such integer is unrepresentable.",
+         "About 18k-36k grammar literals (every type bound -1/+0/+1/+2, same-digit-count overflows, every half-integer spelling incl. the f32 / f64 neighbours of one half, odd integers around 2^23, 2^24, 2^52, 2^53, exponents from E-400 to E400) and every NRf literal up to length 7/9 over `+-0159.E` and up to length 5/7 over `-.E0123456789`, each converted to all ten integer types and bool through TryFrom<Token> and through Parameters::next_data in a real message; non-decimal literals of every bound incl. 64-bit overflow patterns; MIN/MAX keywords; every other element type must give a command error. Ok(r) is accepted iff |r - x| <= 1/2 + one ulp of the intermediate float type at the exact value x (exactly x for NR1 spellings); -222 iff some such integer is unrepresentable.",
          "Trusted: refmodel/decnum.rs + bigint.rs (exact rational arithmetic, self-checked), the tolerance fixed in DESIGN.md 3.3. 32/64-bit value space is covered by boundary-directed families, not exhaustively.",
          "DESIGN.md section 5 (C07)"),
  "C08": ("exploration",
          "exhaustive structured literal families and constructed halfway cases for f32/f64 against a correctly-rounding reference, all keyword/boolean spellings, and the full (target type x element type) matrix",
-         "~20k literals incl. 17-55 digit mantissas at every float range boundary, converted bit-for-bit against core::str::parse; constructed exact midpoints (and midpoint +/- 1 in the last digit) between adjacent floats for every f32 exponent incl. subnormals and every (8th) f64 exponent over 8/6 (quick) and 2048/512 (thorough) mantissa patterns, where the correct neighbour is known by construction from big-integer arithmetic; every case pattern / prefix / near miss of the float keywords and of ON/OFF; 27 targets x 8 element kinds with the documented accept list.",
+         "~20k literals incl. 17-55 digit mantissas at every float range boundary, converted bit-for-bit against core::str::parse; constructed exact midpoints (and midpoint +/- 1 in the last digit) between adjacent floats for every f32 exponent incl. subnormals and every (8th) f64 exponent over 8/6 (quick) and 2048/512 (thorough) mantissa patterns, where the correct neighbour is known by construction from big-integer arithmetic; every case pattern / prefix / near miss of the float keywords and of ON/OFF; 27 targets x 8 element kinds with the documented accept list, each pair converted directly and through a real message with next_data and with next_optional_data (same verdict; a present element is never reported absent).",
          "Trusted: core::str::parse as correctly-rounding reference (cross-checked against the by-construction expectation on every halfway case), refmodel/bigint.rs, the accept-list table transcribed from the conversions' rustdoc. f64 mantissa space is covered by patterns, not exhaustively.",
          "DESIGN.md section 5 (C08)"),
  "C09": ("exploration",
